@@ -58,9 +58,13 @@ def decode_c(s):
     return bytes(s, "latin1").decode("unicode_escape").encode("latin1")
 
 
+NONEXCL = set()     # paths opened with O_CREAT but neither O_EXCL nor O_TRUNC, in the trace being parsed
+
+
 def ops_of_trace(ob):
     """strace mutations -> FsProto operations (paths relative to cwd)"""
     ops = []
+    NONEXCL.clear()
     cwd = ob["cwd"]
     rel = lambda p: os.path.relpath(p, cwd)
     for m in ob["mutations"]:
@@ -73,6 +77,7 @@ def ops_of_trace(ob):
                 ops.append(["truncate", rel(m[1])])
             elif "O_CREAT" in args:
                 ops.append(["create", rel(m[1])])
+                NONEXCL.add(rel(m[1]))          # may be a file that was already there, with whatever it held
             else:
                 ops.append(["openw", rel(m[1])])
         elif name in ("write", "pwrite64"):
@@ -312,6 +317,10 @@ def main():
         bad = go_files_state(ob, small_new)
         if bad:
             ck.violation("after injected fault %s a Go file is neither original nor complete: %s" % (inj, bad), rep)
+        for o in ops:
+            if o[0] == "rename" and o[1] in NONEXCL and o[2].endswith(".go"):
+                ck.violation("the file renamed over %s (%s) was opened with O_CREAT but neither O_EXCL nor O_TRUNC: a file of that name left by an "
+                             "interrupted run keeps its tail, and the mixture replaces the source" % (o[2], o[1]), rep)
         fired = any("INJECTED" in (c[4] or "") for c in ob["calls"])
         if inj:
             ck.tally("injection", "fired" if fired else "never reached (the run makes fewer such calls)")
